@@ -165,8 +165,11 @@ class _Dispatch(_DispatchCommon[_ET]):
         except KeyError:
             raise AttributeError(name)
         else:
-            setattr(self, ls.name, ls)
-            return ls
+            # setdefault() rather than setattr(): another thread may have
+            # replaced the empty listener with a populated collection via
+            # for_modify() since the failed attribute lookup that led here;
+            # that collection must not be overwritten
+            return self.__dict__.setdefault(ls.name, ls)
 
     @property
     def _event_descriptors(self) -> Iterator[_ClsLevelDispatch[_ET]]:
